@@ -49,6 +49,8 @@ class C05(Prop):
     def finding_key(self, case, impl, reason):
         if case.tag.startswith("word"):
             return "class:logos-backtracking" if case.text in self._logos else ("word:" + case.text)
+        if case.tag == "refsweep":
+            return "unit:" + case.expect[1]
         return "unitexpr:" + case.text
 
     def corr_excused(self, case, impl, model):
@@ -95,6 +97,9 @@ class C05(Prop):
             if case.tag == "word-name" and case.expect is not None and got != case.expect:
                 return f"unit name {case.text!r} read as {got}, expected {case.expect}"
             return None
+        if isinstance(case.expect, tuple) and case.expect[0] == "REF":
+            from . import refsweep as R
+            return R.verdict(impl, case.expect[2])
         if isinstance(case.expect, tuple) and case.expect[0] == "MIXED":
             if impl.startswith("C ERR"):
                 return None  # refusing two prefixes on one unit is admissible
@@ -198,6 +203,12 @@ class C05(Prop):
                         c = Case("unit " + C.hexs(text), "unitexpr-mixed", text)
                         c.expect = ("MIXED", scale, tuple(dims))
                         out.append(c)
+        # reference-driven sweep (dimensions AND scale of every reference name at several powers)
+        from . import refsweep as R
+        for text, name, pw, exp in R.sweep():
+            c = Case("query " + C.hexs(text), "refsweep", text)
+            c.expect = ("REF", name, exp)
+            out.append(c)
         # hand-written expression forms from the property text
         for text, exp in [("m s", "Meter:1:0,Second:1:0"), ("m*s", "Meter:1:0,Second:1:0"), ("ms", None),
                           ("m/s", "Meter:1:0,Second:-1:0"), ("m/s*kg", "KiloGram:-1:0,Meter:1:0,Second:-1:0"),
